@@ -188,7 +188,13 @@ pub fn run(ctx: &Ctx, rep: &mut Report) {
         let operator = u.principal();
         let set = gen_wellformed_set(&mut rng, &mut ring, 3);
         let g = Gw::deploy(&mut u, &owner, &operator, rng.bytes32(), 0, 1, &[set]);
-        let apps: Vec<Address> = (0..3).map(|_| u.principal()).collect();
+        let mut apps: Vec<Address> = (0..3).map(|_| u.principal()).collect();
+        // two destinations nobody can sign for: the all-zero account and the gateway itself.
+        // Messages approved for them can never be consumed, whoever else authorises the call.
+        let unsignable: Vec<soroban_sdk::xdr::ScAddress> = vec![ZERO_ACCOUNT.clone(), g.sc.clone()];
+        apps.push(addr_of(&u.env, &ZERO_ACCOUNT));
+        apps.push(g.addr.clone());
+        let role_holders = vec![owner.clone(), operator.clone()];
         let stranger = u.principal();
         // a colliding family of keys plus a few random ones
         let mut keys: Vec<(Vec<u8>, Vec<u8>)> = vec![
@@ -341,7 +347,7 @@ pub fn run(ctx: &Ctx, rep: &mut Report) {
                     match variant {
                         1 => {
                             // another app consumes with its own authorisation
-                            let other = w.apps.iter().map(sc_addr).find(|a| *a != base.contract).unwrap();
+                            let other = w.apps.iter().map(sc_addr).find(|a| *a != base.contract && !unsignable.contains(a)).unwrap();
                             m.contract = other;
                             class = "consume-wrong-caller".into();
                         }
@@ -402,6 +408,19 @@ pub fn run(ctx: &Ctx, rep: &mut Report) {
                     }
                     if !w.contents.contains(&m) {
                         w.contents.push(m.clone());
+                    }
+                    // a destination nobody can sign for: try the recorded forest as asked, or signed by
+                    // the operator, the owner or a stranger; nothing may be consumed
+                    let dest_unsignable = unsignable.contains(&m.contract);
+                    if dest_unsignable {
+                        auth = match rng.below(4) {
+                            0 => Auth::AsRecorded,
+                            1 => Auth::AllBy(role_holders[0].clone()),
+                            2 => Auth::AllBy(role_holders[1].clone()),
+                            _ => Auth::AllBy(w.stranger.clone()),
+                        };
+                        needs_fail_for_auth = true;
+                        class = format!("{}+unsignable-destination", class);
                     }
                     let consumable = w.g.model.consumable(&m);
                     rep.step(format!(
